@@ -4,6 +4,7 @@ import importlib.util
 import io
 import math
 import struct
+import time
 import traceback
 
 from hypothesis import strategies as st
@@ -21,8 +22,11 @@ RULE = (
     "generated runtime: heap at 0x10000000, stack from 0, function pointers = table indices); whatever differs between "
     "the layouts is address dependent and not compared; reference executions that are undefined are discarded; "
     "ir_to_python raising NotImplementedError is counted as rejected per instruction kind. "
-    "non-trivial = a defined call was compared and the module contains an integer / % << >>, a float<->int cast or a phi; "
-    "distinct = (module, calls)"
+    "Plus an enumerated operator table (seed independent): one micro-module per (binary/unary operator, type), "
+    "(cast source, destination), (condition, type) and (store type, load type), each called on the cross product of "
+    "boundary operands (about 300 modules, 32 000 calls). "
+    "non-trivial = a defined call was compared and the module contains an integer / % << >>, a float<->int cast or a phi "
+    "(table: a defined call was compared); distinct = (module, calls)"
 )
 ASSUMPTIONS = [
     "IR semantics as written down in DESIGN.md 3.1 (vf/irsem.py); pointer size 4 (the generated runtime packs ptr as 4 bytes)",
@@ -31,17 +35,19 @@ ASSUMPTIONS = [
     "(the generated 'while True:' dispatcher is rewritten to 'while _vf_tick():', nothing else is touched)",
 ]
 TRUSTED = ["CPython", "Hypothesis", "vf/irsem.py (reference interpreter)", "vf/genir.py"]
-REGISTER = False
-TECHNIQUE = "differential: reference IR interpreter vs exec of the generated Python on Hypothesis-generated modules and boundary-biased arguments"
+REGISTER = True
+TECHNIQUE = "differential: reference IR interpreter vs exec of the generated Python on Hypothesis-generated modules and boundary-biased arguments, plus an enumerated operator/cast/compare/memory table"
 LEVEL_TEXT = (
     "Exploration with an independent reference oracle: for every generated module each function is executed on boundary-biased "
     "argument vectors by the reference interpreter and by the Python code ir_to_python emits; return value, final memory of "
-    "globals/buffers and the external call trace must agree. The translation is a pure function of the module, so "
+    "globals/buffers and the external call trace must agree; every operator, cast, comparison and memory access type is "
+    "additionally enumerated over boundary operands. The translation is a pure function of the module, so "
     "generated-input search is the fitting level; no bound is closed."
 )
 
 HEAP_START = 0x10000000
 FUEL = 6000
+SHRINK_S = 40  # wall-clock cap on Hypothesis' shrink phase per worker (safety net, DESIGN 2.2)
 
 
 # ---------------------------------------------------------------------------
@@ -619,7 +625,11 @@ def _worker(arg):
     excl = open_ids()
     profile = make_profile(excl, full, big)
 
+    shrink = {"t0": None}
+
     def prop(case):
+        if shrink["t0"] is not None and time.time() - shrink["t0"] > SHRINK_S:
+            return None  # cap on the shrink phase: stop accepting smaller examples
         for kid in case.get("excluded", ()):
             stats.excluded[kid] += 1
         try:
@@ -637,9 +647,17 @@ def _worker(arg):
             else None,
             classes=["compared_calls:%d" % min(compared, 3)] + (sorted(feats) if compared else []),
         )
-        return fail["msg"] if fail else None
+        if fail is None:
+            return None
+        kid = classify(case, fail["msg"])
+        if kid and kid in excl:
+            stats.known[kid] += 1
+            return None
+        if shrink["t0"] is None:
+            shrink["t0"] = time.time()
+        return fail["msg"]
 
-    fails = hyp_search(case_strategy(profile, KF_PHI in excl), prop, n, seed, stats, classify=classify)
+    fails = hyp_search(case_strategy(profile, KF_PHI in excl), prop, n, seed, stats)
     for kid, flag in ((KF_ROT, profile.rotates), (KF_NAN, profile.nonfinite), (KF_FREE, profile.late_allocs)):
         if not flag:
             stats.excluded[kid] += n
@@ -653,3 +671,92 @@ def run(ctx):
         full = w >= 14  # two of the sixteen shards keep CopyBlob / pointer initialisers in the menu
         args.append((subseed(ctx.seed, PID, w), n // 16, full, not ctx.quick and w % 2 == 1))
     ctx.pmap(_worker, args)
+    ctx.pmap(_table_worker, [(k, 16) for k in range(16)])
+
+
+# ---------------------------------------------------------------------------
+# operator table: one micro-module per (operator, type), (source type, destination type), (condition, type) and
+# memory access type, each called on the cross product of boundary operands.  Enumerated, independent of the seed.
+
+_FLOAT_VALUES = [0.0, -0.0, 1.0, -1.0, 0.5, -0.5, 2.5, 3.5, -2.5, -3.5, 0.7, -0.7, 1.5, 3.0, 10.0, 0.1, 255.0, 256.5, -129.0,
+                 65535.5, 1e6 + 0.5, 2147483647.0, 2147483648.0, -2147483649.0, 4294967296.5, 16777217.0, 1e15, 1e38, 3e38]
+
+
+def _int_values(ty):
+    lo, hi = genir.int_range(ty)
+    b = genir.BITS[ty]
+    vals = [0, 1, 2, 3, 7, 10, hi, hi - 1, lo, lo + 1, 1 << (b - 2), 0x55 & hi, 100 & hi]
+    if genir.is_signed(ty):
+        vals += [-1, -2, -7, -10]
+    out = []
+    for v in vals:
+        if lo <= v <= hi and v not in out:
+            out.append(v)
+    return out
+
+
+def _values(ty):
+    if genir.is_float(ty):
+        vals = _FLOAT_VALUES if ty == "f64" else [v for v in (genir._to_f32(x) for x in _FLOAT_VALUES)]
+        return [genir.fhex(v) for v in vals]
+    return _int_values(ty)
+
+
+def _micro(params, ret, blocks, calls):
+    f = {"name": "f0", "params": params, "ret": ret, "bufs": {}, "tailrec": False, "layout": list(range(len(blocks))), "blocks": blocks}
+    return {"module": {"ptr_bits": 32, "globals": [], "externals": [], "functions": [f]}, "calls": [["f0", c] for c in calls]}
+
+
+def table_cases():
+    ints, floats = genir.INT_TYPES, genir.FLOAT_TYPES
+    cases = []
+    for ty in ints + floats:
+        vals = _values(ty)
+        ops = genir.FLOAT_OPS if genir.is_float(ty) else genir.INT_OPS + genir.ROT_OPS
+        for op in ops:
+            if op in ("<<", ">>", "rol", "ror"):
+                bits = genir.BITS[ty]
+                pairs = [[a, b] for a in vals for b in (0, 1, 3, bits // 2, bits - 1)]
+            else:
+                pairs = [[a, b] for a in vals for b in vals]
+            cases.append(("binop:%s:%s" % (op, ty), _micro([["a", ty], ["b", ty]], ty, [{"name": "b0", "ins": [["binop", "v", ty, "a", op, "b"], ["ret", "v"]]}], pairs)))
+        for op in ["-"] if genir.is_float(ty) else ["-", "~"]:
+            cases.append(("unop:%s:%s" % (op, ty), _micro([["a", ty]], ty, [{"name": "b0", "ins": [["unop", "v", ty, op, "a"], ["ret", "v"]]}], [[a] for a in vals])))
+        for dty in ints + floats:
+            cases.append(("cast:%s->%s" % (ty, dty), _micro([["a", ty]], dty, [{"name": "b0", "ins": [["cast", "v", dty, "a"], ["ret", "v"]]}], [[a] for a in vals])))
+        for cond in genir.CONDS:
+            blocks = [
+                {"name": "b0", "ins": [["cjmp", "a", cond, "b", "b1", "b2"]]},
+                {"name": "b1", "ins": [["const", "one", "i32", 1], ["ret", "one"]]},
+                {"name": "b2", "ins": [["const", "zero", "i32", 0], ["ret", "zero"]]},
+            ]
+            sub = vals[::2] + vals[-2:]
+            cases.append(("cjmp:%s:%s" % (cond, ty), _micro([["a", ty], ["b", ty]], "i32", blocks, [[a, b] for a in sub for b in sub])))
+        # memory: store as ty, load back as ty and as the other type of the same size
+        size = genir.BITS[ty] // 8
+        for lty in [t for t in ints + floats if genir.BITS[t] // 8 == size and (genir.is_float(t) == genir.is_float(ty))]:
+            blocks = [{"name": "b0", "ins": [["alloc", "m", 8, 8], ["addr", "p", "m"], ["store", "a", "p", False], ["load", "v", lty, "p", False], ["ret", "v"]]}]
+            cases.append(("mem:%s->%s" % (ty, lty), _micro([["a", ty]], lty, blocks, [[a] for a in vals])))
+    return cases
+
+
+def _table_worker(arg):
+    shard, nshards = arg
+    stats = Stats()
+    excl = open_ids()
+    fails = []
+    for k, (label, case) in enumerate(table_cases()):
+        if k % nshards != shard:
+            continue
+        fail, compared = evaluate(case, stats, excl)
+        kind = label.split(":")[0]
+        stats.case(("table", label), compared > 0, None, classes=["table:" + kind])
+        stats.hist["table_calls_compared"] += compared
+        if fail:
+            kid = classify(case, fail["msg"])
+            if kid and kid in excl:
+                stats.known[kid] += 1
+            else:
+                # keep only the failing call: small replay file
+                fails.append(({"module": case["module"], "calls": [case["calls"][fail["call"]]] if "call" in fail else case["calls"][:1]}, fail["msg"]))
+    return stats, fails
